@@ -1348,7 +1348,7 @@ fn replace_splices(mut s: String, splices: &[String]) -> String {
 
 /// names a function binds, in source order: parameters, then every identifier bound by a `let`
 /// (closure parameters and loop patterns are not included)
-pub fn bound_names(text: &str) -> Option<(Vec<String>, Vec<String>)> {
+pub fn bound_names(text: &str) -> Option<(Vec<String>, Vec<String>, Vec<String>)> {
     let (sig, block) = parse_any_fn(text)?;
     let mut params = vec![];
     for inp in sig.inputs.iter() {
@@ -1358,20 +1358,72 @@ pub fn bound_names(text: &str) -> Option<(Vec<String>, Vec<String>)> {
             params.extend(v.0);
         }
     }
-    struct Lets(Vec<String>);
-    impl<'ast> visit::Visit<'ast> for Lets {
+    // every binding occurrence of the body in source order: `let`, `if let` / `while let`, match arms, `for`
+    // patterns and closure parameters; for a `let` with an initialiser also its token text (the "shape")
+    struct Binds(Vec<(String, String)>);
+    impl<'ast> visit::Visit<'ast> for Binds {
         fn visit_local(&mut self, l: &'ast Local) {
             let mut v = PatNames(vec![]);
             visit::Visit::visit_pat(&mut v, &l.pat);
-            self.0.extend(v.0);
-            visit::visit_local(self, l);
+            let shape = l.init.as_ref().map(|i| i.expr.to_token_stream().to_string()).unwrap_or_default();
+            let single = v.0.len() == 1;
+            for n in v.0 { self.0.push((n, if single { shape.clone() } else { String::new() })); }
+            if let Some(i) = &l.init { visit::Visit::visit_expr(self, &i.expr); if let Some((_, d)) = &i.diverge { visit::Visit::visit_expr(self, d); } }
+        }
+        fn visit_expr_let(&mut self, e: &'ast ExprLet) {
+            let mut v = PatNames(vec![]);
+            visit::Visit::visit_pat(&mut v, &e.pat);
+            for n in v.0 { self.0.push((n, String::new())); }
+            visit::Visit::visit_expr(self, &e.expr);
+        }
+        fn visit_arm(&mut self, a: &'ast Arm) {
+            let mut v = PatNames(vec![]);
+            visit::Visit::visit_pat(&mut v, &a.pat);
+            for n in v.0 { self.0.push((n, String::new())); }
+            if let Some((_, g)) = &a.guard { visit::Visit::visit_expr(self, g); }
+            visit::Visit::visit_expr(self, &a.body);
+        }
+        fn visit_expr_for_loop(&mut self, f: &'ast ExprForLoop) {
+            let mut v = PatNames(vec![]);
+            visit::Visit::visit_pat(&mut v, &f.pat);
+            for n in v.0 { self.0.push((n, String::new())); }
+            visit::Visit::visit_expr(self, &f.expr);
+            visit::Visit::visit_block(self, &f.body);
+        }
+        fn visit_expr_closure(&mut self, c: &'ast ExprClosure) {
+            for p in c.inputs.iter() {
+                let mut v = PatNames(vec![]);
+                visit::Visit::visit_pat(&mut v, p);
+                for n in v.0 { self.0.push((n, String::new())); }
+            }
+            visit::Visit::visit_expr(self, &c.body);
         }
     }
-    let mut lets = Lets(vec![]);
-    if let Some(b) = &block {
-        visit::Visit::visit_block(&mut lets, b);
+    let mut b = Binds(vec![]);
+    if let Some(bl) = &block {
+        visit::Visit::visit_block(&mut b, bl);
     }
-    Some((params, lets.0))
+    // shapes: the initialiser with every local / parameter name replaced by `_`
+    let all: BTreeSet<String> = params.iter().cloned().chain(b.0.iter().map(|x| x.0.clone())).collect();
+    let shape_of = |t: &str| -> String {
+        let mut out = String::new();
+        let cs: Vec<char> = t.chars().collect();
+        let mut i = 0;
+        while i < cs.len() {
+            if cs[i].is_alphabetic() || cs[i] == '_' {
+                let mut j = i;
+                while j < cs.len() && (cs[j].is_alphanumeric() || cs[j] == '_') { j += 1; }
+                let w: String = cs[i..j].iter().collect();
+                let field = out.trim_end().ends_with('.');
+                if all.contains(&w) && !field { out.push('_') } else { out.push_str(&w) }
+                i = j;
+            } else { if !cs[i].is_whitespace() { out.push(cs[i]); } i += 1; }
+        }
+        out
+    };
+    let lets: Vec<String> = b.0.iter().map(|x| x.0.clone()).collect();
+    let shapes: Vec<String> = b.0.iter().map(|x| shape_of(&x.1)).collect();
+    Some((params, lets, shapes))
 }
 struct PatNames(Vec<String>);
 impl<'ast> visit::Visit<'ast> for PatNames {
@@ -1388,22 +1440,69 @@ impl<'ast> visit::Visit<'ast> for PatNames {
 /// difference leaves the contract as written (and a missing name is then a lost anchor).
 pub fn renamed_spec(fs: &FnSpec, text: &str, pinned: Option<&serde_json::Value>, stats: &mut BTreeMap<String, usize>) -> FnSpec {
     let pinned = match pinned { Some(p) => p, None => return fs.clone() };
-    let (cp, cl) = match bound_names(text) { Some(x) => x, None => return fs.clone() };
+    let (cp, cl, cs_) = match bound_names(text) { Some(x) => x, None => return fs.clone() };
     let get = |k: &str| -> Vec<String> { pinned.get(k).and_then(|v| v.as_array()).map(|a| a.iter().filter_map(|x| x.as_str().map(|s| s.to_string())).collect()).unwrap_or_default() };
-    let (pp, pl) = (get("params"), get("lets"));
-    if pp.len() != cp.len() || pl.len() != cl.len() { return fs.clone(); }
+    let (pp, pl, ps_) = (get("params"), get("lets"), get("shapes"));
+    let lenient = LENIENT.load(std::sync::atomic::Ordering::Relaxed);
     let mut map: BTreeMap<String, String> = BTreeMap::new();
-    for (o, n) in pp.iter().zip(cp.iter()).chain(pl.iter().zip(cl.iter())) {
+    let mut aligned = false;
+    let mut consistent = true;
+    let mut add = |o: &String, n: &String, map: &mut BTreeMap<String, String>| {
         if o != n {
-            if let Some(prev) = map.get(o) { if prev != n { return fs.clone(); } }
+            if let Some(prev) = map.get(o) { if prev != n { consistent = false; } }
             map.insert(o.clone(), n.clone());
         }
+    };
+    if pp.len() == cp.len() { for (o, n) in pp.iter().zip(cp.iter()) { add(o, n, &mut map); } }
+    if pl.len() == cl.len() {
+        for (o, n) in pl.iter().zip(cl.iter()) { add(o, n, &mut map); }
+    } else if lenient {
+        // lets were added or removed as well: align the two name sequences on the names they share (longest
+        // common subsequence); between two shared names, equally many old and new names are a renaming in order
+        let (n, m) = (pl.len(), cl.len());
+        let mut t = vec![vec![0usize; m + 1]; n + 1];
+        for i in (0..n).rev() { for j in (0..m).rev() {
+            t[i][j] = if pl[i] == cl[j] { t[i + 1][j + 1] + 1 } else { t[i + 1][j].max(t[i][j + 1]) };
+        } }
+        let (mut i, mut j) = (0usize, 0usize);
+        let (mut gi, mut gj) = (0usize, 0usize);
+        let mut gaps: Vec<(usize, usize, usize, usize)> = vec![];
+        while i < n && j < m {
+            if pl[i] == cl[j] { gaps.push((gi, i, gj, j)); i += 1; j += 1; gi = i; gj = j; }
+            else if t[i + 1][j] >= t[i][j + 1] { i += 1 } else { j += 1 }
+        }
+        gaps.push((gi, n, gj, m));
+        for (a, b, c, d) in gaps {
+            if b - a == d - c { for k in 0..(b - a) { add(&pl[a + k], &cl[c + k], &mut map); } }
+            else if ps_.len() == pl.len() {
+                // unequal gap: pair the names whose initialisers have the same shape, in order
+                let mut k2 = c;
+                for k in a..b {
+                    if ps_[k].is_empty() { continue; }
+                    if let Some(hit) = (k2..d).find(|&x| cs_[x] == ps_[k]) { add(&pl[k], &cl[hit], &mut map); k2 = hit + 1; }
+                }
+            }
+        }
+        aligned = true;
     }
-    if map.is_empty() { return fs.clone(); }
+    if !consistent { return fs.clone(); }
     // a new name must not be an old name that is still in use under its old meaning
     let still: BTreeSet<&String> = pp.iter().chain(pl.iter()).filter(|o| !map.contains_key(*o)).collect();
     if map.values().any(|n| still.contains(n)) { return fs.clone(); }
-    *stats.entry("E0.renamed_local".to_string()).or_insert(0) += map.len();
+    let words = |t: &str| -> Vec<(String, bool)> {
+        let mut out = vec![];
+        let cs: Vec<char> = t.chars().collect();
+        let mut i = 0;
+        while i < cs.len() {
+            if cs[i].is_alphabetic() || cs[i] == '_' {
+                let mut j = i;
+                while j < cs.len() && (cs[j].is_alphanumeric() || cs[j] == '_') { j += 1; }
+                out.push((cs[i..j].iter().collect(), i > 0 && cs[i - 1] == '.'));
+                i = j;
+            } else { i += 1; }
+        }
+        out
+    };
     let sub = |t: &str| -> String {
         // whole-word, simultaneous substitution
         let mut out = String::new();
@@ -1421,6 +1520,15 @@ pub fn renamed_spec(fs: &FnSpec, text: &str, pinned: Option<&serde_json::Value>,
         }
         out
     };
+    // names the contract was written against that the body no longer binds (after the renaming)
+    let current: BTreeSet<&String> = cp.iter().chain(cl.iter()).collect();
+    let gone: BTreeSet<String> = pp.iter().chain(pl.iter()).filter(|o| !map.contains_key(*o) && !current.contains(o)).cloned().collect();
+    let mentions_gone = |t: &str| -> Option<String> { words(t).into_iter().find(|(w, field)| !field && gone.contains(w)).map(|(w, _)| w) };
+    if map.is_empty() && gone.is_empty() { return fs.clone(); }
+    if !map.is_empty() { *stats.entry(if aligned { "E0.renamed_local_aligned" } else { "E0.renamed_local" }.to_string()).or_insert(0) += map.len(); }
+    if aligned && !map.is_empty() {
+        lost(format!("locals of {} were added or removed and some renamed: the annotations follow the alignment {}", fs.key, map.iter().map(|(a, b)| format!("{}→{}", a, b)).collect::<Vec<_>>().join(", ")));
+    }
     let mut f = fs.clone();
     for c in f.reqs.iter_mut().chain(f.enss.iter_mut()) { c.text = sub(&c.text); }
     for (_, lp) in f.loops.iter_mut() {
@@ -1435,6 +1543,17 @@ pub fn renamed_spec(fs: &FnSpec, text: &str, pinned: Option<&serde_json::Value>,
     for (_, from, to) in f.patches.iter_mut() { *from = sub(from); *to = sub(to); }
     for (n, _) in f.annots.iter_mut() { *n = sub(n); }
     for n in f.u64_names.iter_mut() { *n = sub(n); }
+    if !gone.is_empty() {
+        // annotations that mention a local which is gone: a lost anchor (strict: stop; lenient: drop them)
+        let mut dropped: Vec<String> = vec![];
+        for (_, lp) in f.loops.iter_mut() {
+            lp.invs.retain(|c| match mentions_gone(&c.text) { Some(w) => { dropped.push(format!("invariant {} (local `{}`)", c.id, w)); false } None => true });
+        }
+        f.hints.retain(|(w, _, t)| match mentions_gone(t).or_else(|| mentions_gone(w)) { Some(x) => { dropped.push(format!("hint at {} (local `{}`)", w, x)); false } None => true });
+        f.annots.retain(|(n, _)| if gone.contains(n) { dropped.push(format!("type annotation of `{}`", n)); false } else { true });
+        f.u64_names.retain(|n| !gone.contains(n));
+        for d in dropped { lost(format!("{} of {}: the local is no longer bound in the function", d, fs.key)); }
+    }
     f
 }
 
@@ -1737,6 +1856,11 @@ pub fn emit_fn(idx: &Index, fs0: &FnSpec, tags: &[String], debug_view: bool, sta
         src.from_macro.as_ref().map(|m| format!(" via {}", m)).unwrap_or_default()));
     for a in &fs.attrs {
         s.push_str(&format!("{}#[{}]\n", pad, a));
+    }
+    // a loop body sees the facts established before the loop about variables it does not modify (so hoisting a
+    // sub-expression out of a loop does not need a new invariant)
+    if !fs.external && (src.text.contains("for ") || src.text.contains("while ") || src.text.contains("loop ")) && !fs.attrs.iter().any(|a| a.contains("loop_isolation")) {
+        s.push_str(&format!("{}#[verifier::loop_isolation(false)]\n", pad));
     }
     if fs.external {
         s.push_str(&format!("{}#[verifier::external_body]\n", pad));
